@@ -526,6 +526,9 @@ func (inp Input) ABIType(pos int) (int, atype) {
 		switch {
 		case strings.TrimSuffix(strings.TrimPrefix(inp.Type, "bytes"), "[") == "":
 			base = dynamic()
+		case strings.HasPrefix(strings.TrimPrefix(inp.Type, "bytes"), "["):
+			// bytes[], bytes[k]: array of the dynamic type bytes, not bytesN
+			base = dynamic()
 		default:
 			base = static()
 		}
